@@ -373,6 +373,7 @@ func (h *harness) random() {
 			if k > 0 {
 				c.Syntax = r.Uint64() | 1
 			}
+			c.LazyIdle = k == 2 && r.Bool()
 			pending = append(pending, c)
 			if i < 2 && k == 0 {
 				run.Sample(map[string]any{"document": c.Document(), "case": c})
@@ -440,6 +441,12 @@ func main() {
 		if json.Unmarshal(rp.Case, &c) == nil && c.Shape != nil {
 			var pending []*engine.Case
 			schedules(&c, 2000, func(d *engine.Case) { pending = append(pending, d) })
+			// … and each of them again with an idle handler whose every other call delivers nothing
+			for _, d := range append([]*engine.Case{}, pending...) {
+				l := d.Clone()
+				l.LazyIdle = true
+				pending = append(pending, l)
+			}
 			h.batch(pending, "corpus")
 			run.Count("corpus")
 		}
